@@ -119,7 +119,7 @@ XOPT_Q = dict(XOPT); XOPT_Q["faults"] = 1
 for n in X_H:
     REACH_P["VH_X_" + n] = ["response"] if n == "Echo" else ["response", "error"]
 FRONT_ASSUME = ["protocol parsing (protobuf / gin binding / encoding-json) is outside: the handler receives an arbitrary value of the request struct type, every optional sub-message nil or present",
-    "the kernel double runs the real request coroutine under havoc semantics at the point where System.AddOnRequest would (the goroutine hand-over is not modelled)",
+    "the kernel double runs, under havoc semantics and at the point where System.AddOnRequest's wrapper would, the coroutine that cmd/serve registers for the request kind (the table is read from the SSA of the real registration block, a kind without registration panics as System.Tick asserts); the goroutine hand-over is not modelled",
     "jwt: Decode of a client token forks {error, validly signed token with arbitrary claims} because the signing key is a constant in the source"]
 reg["C12"] = {"level": "model_checking", "explanation": "per-path callback/return counting by bounded symbolic execution: the kernel API answers a refused submission exactly once and stores an accepted one (symbolic occupancy and shutdown flag); each of the 18 request coroutines returns exactly one of (response, *t_api.Error) on every path under store/router/sender failures (budget 2) from an arbitrary invariant-satisfying database and never panics; every gRPC call issues at most one kernel request and produces exactly one reply or error; the real AIO answers a submission its subsystem refuses exactly once with a queue-full error without blocking the kernel goroutine (symbolic completion-queue occupancy); a sequential skeleton of System.Loop/Tick/Shutdown/Done with the real api queue shows that every request accepted before Shutdown is answered exactly once before Loop returns, for every batch size and whatever the api signal goroutine buffered between ticks",
     "assumptions": ASSUME_CO + FRONT_ASSUME + ["loop skeleton: one kernel goroutine; api.Signal's goroutine is replaced by its sequential contract (it may or may not have moved one request from sq to the one-slot buffer before the loop continues); gocoro.Add runs the added coroutine to completion at once or refuses (choice); the goroutine in coroutineMetrics is ignored; time.After never fires; aio and scheduler are doubles",
